@@ -42,19 +42,16 @@ theorem getOpts_shape : BexprGen.Options.getOptsSkipsNil = true := by decide +ke
 /-- creation: every evaluator field is fed from its own option; the tree is the parse result -/
 theorem create_plumbing :
     BexprGen.Options.createPlumbing =
-      [("ast", "expr"), ("tagName", "parsedOpts.withTagName"),
-       ("valueTransformationHook", "parsedOpts.withHookFn"), ("unknownVal", "parsedOpts.withUnknown"),
-       ("expression", "expression")] ∧
+      [("ast", "$tree"), ("tagName", "$opts.withTagName"),
+       ("valueTransformationHook", "$opts.withHookFn"), ("unknownVal", "$opts.withUnknown"),
+       ("expression", "$expression")] ∧
     BexprGen.Options.createErrCheckBeforeAssert = true := by
   decide +kernel
 
 /-- the budget is forwarded to the parser when non-zero, and zero means unlimited there -/
 theorem budget_plumbing :
     BexprGen.Options.newParserZeroMeansMax = true ∧
-    BexprGen.Options.createForwardsMax =
-      ["if", "parsedOpts", ".", "withMaxExpressions", "!=", "0", "{", "parserOpts", "=", "append", "(",
-       "parserOpts", ",", "grammar", ".", "MaxExpressions", "(", "parsedOpts", ".", "withMaxExpressions",
-       ")", ")", "}"] := by
+    BexprGen.Options.createForwardsMax = ["nonzero"] := by
   decide +kernel
 
 /-- the step counter: incremented and checked (`>`) at the top of every parseExpr call -/
